@@ -88,8 +88,20 @@ def check_sorted(vec, keyname, yield_key):
     elems = [(s, i) for i, s in enumerate(vec)]
     kf = lambda comb: key(tuple(e[0] for e in comb))
     # the flag is also given positionally (third parameter), as a caller of the documented signature may
-    got = outcome(lambda: list(sorted_combinations(elems, kf, yield_key) if len(vec) % 2 else
-                               sorted_combinations(elems, kf, yield_key=yield_key)))
+    def consume():
+        g = sorted_combinations(elems, kf, yield_key) if len(vec) % 2 else sorted_combinations(elems, kf, yield_key=yield_key)
+        if (len(vec) + sum(vec)) % 3 == 1:
+            # the caller takes the first results one by one with next() and the rest in a loop: one enumeration, not two
+            it = iter(g)
+            head = []
+            for _ in range(2):
+                try:
+                    head.append(next(it))
+                except StopIteration:
+                    break
+            return head + list(g)
+        return list(g)
+    got = outcome(consume)
     if got[0] != "ok":
         return "operation-raised", f"sorted_combinations({vec}, key={keyname}) raised {got[1]}"
     out = got[1]
@@ -195,6 +207,30 @@ def check_many_elements(n, salt):
     rng = random.Random(n * 7919 + salt)
     scores = [rng.randint(5, 60) for _ in range(n)]
     elems = list(range(n))
+    if n > 10000:
+        # tens of thousands of elements (2**n - 1 combinations is a number of thousands of digits): the first few are still cheap
+        with instr.budget(40_000_000):
+            try:
+                got = outcome(lambda: list(itertools.islice(sorted_combinations(elems, key=lambda c: sum(scores[i] for i in c), yield_key=True), 4)))
+            except instr.StepBudgetExceeded:
+                return "operation-does-not-end", f"first 4 combinations of {n} elements exceeded the statement budget"
+        lo = min(scores)
+        nlo = scores.count(lo)
+        if got[0] != "ok":
+            return "operation-raised", f"sorted_combinations over {n} elements (first 4 taken) raised {got[1]}"
+        want_keys = sorted([lo] * nlo + sorted(x for x in scores if x != lo)[:4])[:4] if nlo < 4 else [lo] * 4
+        if [k for _, k in got[1]] != want_keys or len({tuple(c) for c, _ in got[1]}) != 4 or \
+                any(len(c) != 1 or scores[c[0]] != k for c, k in got[1]):
+            return "order", f"first 4 combinations of {n} elements -> {str(got[1])[:200]}, expected single elements with the keys {want_keys}"
+        with instr.budget(40_000_000):
+            try:
+                g = outcome(lambda: [(tuple(c), s_) for c, s_ in f(elems, list(scores), lo, lo + 1)])
+            except instr.StepBudgetExceeded:
+                return "operation-does-not-end", f"interval search next to the smallest score over {n} elements exceeded the statement budget"
+        want = Counter(((i,), lo) for i in range(n) if scores[i] == lo)
+        if g[0] != "ok" or Counter(g[1]) != want:
+            return "interval-search", f"{n} elements, interval [{lo},{lo + 1}) -> {str(g)[:200]}, expected {len(want)} single elements"
+        return None
     with instr.budget(20_000_000):
         try:
             got = outcome(lambda: list(itertools.islice(sorted_combinations(elems, key=lambda c: sum(scores[i] for i in c), yield_key=True), 200)))
@@ -301,6 +337,12 @@ def run_shard(spec):
             res.count("runs_with_33_to_72_elements")
             if bad:
                 report(bad, {"what": "many", "n": 33 + i % 40, "salt": i})
+        if i % 997 == 5:
+            bad = check_many_elements(15000 + i % 4000, i)
+            res.evaluations += 1
+            res.count("runs_with_15000_to_19000_elements")
+            if bad:
+                report(bad, {"what": "many", "n": 15000 + i % 4000, "salt": i})
         if i % 301 == 0:
             res.sample({"scores": vec, "keys": list(KEYS), "intervals": f"all [a,b) with 0<=a,b<={sum(vec) + 2}"})
     res.count("repo_line_events", instr.S.total)
